@@ -153,6 +153,10 @@ def features(s):
     return f
 
 
+RARE = ["threshold-above-strict-majority", "at-threshold", "below-threshold", "early-choice", "only-mid",
+        "invalid-and-valid", "only-invalid", "slow-and-valid"]
+
+
 def sig_of(s):
     var = s["variant"]
     return {"strat": s["strat"], "family": var,
@@ -185,14 +189,16 @@ def scenarios(tier):
             if tier == "thorough":
                 k = len(pn) if n <= 3 else 150
             else:
-                k = {1: len(pn), 2: 22, 3: 38, 4: 22}[n]
+                k = {1: len(pn), 2: 40, 3: 70, 4: 40}[n]
             if k >= len(pn):
                 chosen += pn
                 continue
-            # stratified: half of the sample from scenarios with a rare feature, the rest uniform
-            rare = [b for b in pn if features(b) & {"at-threshold", "below-threshold", "early-choice", "only-mid",
-                                                   "invalid-and-valid", "threshold-above-strict-majority"}]
-            pick = rnd.sample(rare, min(len(rare), k // 2))
+            # stratified: a few scenarios for every rarer feature first, the rest uniform
+            pick = []
+            for f in RARE:
+                have = [b for b in pn if f in features(b) and b not in pick]
+                pick += rnd.sample(have, min(len(have), max(2, k // 12)))
+            pick = pick[:k]
             rest = [b for b in pn if b not in pick]
             pick += rnd.sample(rest, k - len(pick))
             chosen += pick
@@ -209,6 +215,39 @@ def scenarios(tier):
     for i, s in enumerate(out):
         s["sc"] = i + 1
     return out
+
+
+def hint(replay_dir):
+    """Which part of C07 a rejected call most plainly contradicts (explanation only, not the verdict)."""
+    try:
+        rows = vf.read_ndjson(os.path.join(replay_dir, "trace.ndjson"))
+        a = [r for r in rows if r["ev"] == "Reset"][0]
+        b = [r for r in rows if r["ev"] == "Return"][0]
+    except Exception:
+        return ""
+    T = a["T"]
+    eps = max(T // 4, 40)
+    obs = a["obs"]
+    valid_in_time = [o for o in obs if o["k"] == "valid" and o["t"] < T - eps]
+    if b["noreturn"] or b["t"] > T + eps:
+        return "ReturnsByHard: no return by T + Eps"
+    if b["ok"] and b["nildata"]:
+        return "InvalidNeverReturned: success reported with missing data"
+    if b["ok"] and a["variant"] in ("Best", "First"):
+        if not 1 <= b["who"] <= a["n"]:
+            return "FirstIsSome/InvalidNeverReturned: the returned object is no node's response"
+        w = obs[b["who"] - 1]
+        if w["k"] != "valid":
+            return "InvalidNeverReturned: node %d's response fails the validity rules (%s)" % (b["who"], w.get("inv") or w["k"])
+        if w["t"] > b["t"]:
+            return "FirstIsSome: node %d answered after the strategy returned" % b["who"]
+        if a["variant"] == "Best" and any(o["k"] == "valid" and o["s"] > w["s"] and o["t"] < min(b["t"], T // 2) - eps for o in obs):
+            return "BestIsMax: a higher-scoring valid response had been received"
+    if not b["ok"] and valid_in_time and a["variant"] != "Majority":
+        return "ErrorIffNothing: error although an acceptable response arrived in time"
+    if a["variant"] in ("Majority", "RootMajority"):
+        return "MajorityRule: result is not what the tally of in-time reports and the threshold demand at this decision point"
+    return "the decision is not admitted at this instant (returned before the variant may decide, or not the variant's choice)"
 
 
 def model_check(v, tier):
@@ -236,6 +275,8 @@ def run(tier):
     model_check(v, tier)
     sc = scenarios(tier)
     vf.log("%d scenarios on %d strategies" % (len(sc), len(STRATS)))
+    orig_report = v.report
+    v.report = lambda sig, what, d: orig_report(sig, what + " -- " + hint(d) + " -- " + json.dumps(sig), d)
     vf.conformance(v, sc, driver, "Trace_Collector", "Trace_Collector.cfg", sig_of, nontrivial, chunk=1500,
                    tlc_timeout=1200)
     v.coverage["rule"] = ("initial states of Collector.tla enumerated by TLC (all multisets of node behaviours x phases, "
@@ -246,6 +287,66 @@ def run(tier):
              "scenarios_rerun_after_stall": _state["reruns"],
              "c20_scenarios_with_blocked_sender_by_strategy": dict(sorted(_state["blocked"].items()))}
     return v.finish(extra=extra)
+
+
+def selftest(tier):
+    """Binding demonstration on recorded traces: every accepted call of a fresh run, with one recorded field
+    corrupted (worse response, error instead of result, late return, minority value, ...), must be rejected."""
+    import copy
+    rnd = random.Random(vf.seed())
+    sc = [s for s in scenarios("quick") if s["n"] >= 2]
+    rnd.shuffle(sc)
+    sc = sc[:300]
+    rows = driver(sc, "selftest")
+    pairs = [(rows[i], rows[i + 1]) for i in range(0, len(rows), 2)]
+    T = T_MS
+    eps = max(T // 4, 40)
+    cases = []
+
+    def add(name, a, b, **chg):
+        if sum(1 for c in cases if c[0] == name) < 3:
+            b2 = dict(b)
+            b2.update(chg)
+            cases.append((name, a, b2))
+
+    for a, b in pairs:
+        obs = a["obs"]
+        if a["variant"] == "Best" and b["ok"]:
+            w = obs[b["who"] - 1]
+            lower = [i + 1 for i, o in enumerate(obs) if o["k"] == "valid" and o["s"] < w["s"] and o["t"] < b["t"] - 2 * eps]
+            if lower:
+                add("best: lower-scoring response returned", a, b, who=lower[0])
+        if b["ok"] and a["variant"] != "Majority":
+            add("result replaced by an error", a, b, ok=False)
+        if b["t"] > T - eps // 2:
+            add("return later than T + Eps", a, b, t=T + eps + 20)
+        if not b["ok"] and a["variant"] in ("Best", "First") and obs[0]["k"] != "valid":
+            add("error replaced by a non-acceptable node's response", a, b, ok=True, who=1)
+        if a["variant"] in ("Majority", "RootMajority") and b["ok"]:
+            c = {}
+            for o in obs:
+                if o["k"] == "valid" and o["t"] < T // 2 - eps:
+                    c[o["v"]] = c.get(o["v"], 0) + 1
+            if c.get(b["val"], 0) > c.get(3 - b["val"], 0) >= 1 and all(o["t"] < T // 2 - eps for o in obs if o["k"] == "valid"):
+                add("majority: minority value returned", a, b, val=3 - b["val"])
+        if a["variant"] == "Majority" and not b["ok"]:
+            vs = [o["v"] for o in obs if o["k"] == "valid" and o["t"] < T - eps]
+            if vs:
+                add("majority: value used below the threshold", a, b, ok=True, val=vs[0])
+        if a["variant"] == "First" and b["ok"]:
+            later = [i + 1 for i, o in enumerate(obs) if o["k"] == "valid" and o["t"] > b["t"]]
+            if later:
+                add("first: response of a node that had not answered yet", a, b, who=later[0])
+    bad = 0
+    for i, (name, a, b) in enumerate(cases):
+        tp = os.path.join(vf.outdir(PID), "selftest.ndjson")
+        vf.write_ndjson(tp, [a, b])
+        res = vf.validate_trace(PID, "Trace_Collector", "Trace_Collector.cfg", tp, name="trace-selftest")
+        vf.log("selftest %-55s %s" % (name, "accepted (BAD)" if res["accepted"] else "rejected"))
+        bad += 1 if res["accepted"] else 0
+    if len({c[0] for c in cases}) < 6:
+        raise vf.Broken("selftest found too few corruptible traces")
+    return 1 if bad else 0
 
 
 def replay(path):
